@@ -109,6 +109,7 @@ struct RunCtx
   std::string prop;   // property under check (only its oracles report)
   std::string tier;   // quick | thorough
   bool verbose = false;
+  bool fresh = false; // every run of this batch executes in a freshly forked process (first-use behaviour is reproducible)
 };
 
 struct Suite
